@@ -113,6 +113,24 @@ func (c *Ctx) checkCodec(p *packages.Package, rel string, fobj *types.Func) {
 		return false
 	})
 	if !found {
+		// not written as a switch (if-chain, lookup helper…): which struct is built under which tag value is read off
+		// the type-checked program instead
+		maxTag := int64(0)
+		for _, v := range consts {
+			if v > maxTag {
+				maxTag = v
+			}
+		}
+		tab := variantAllocTypes(c.SSAOf(fobj), maxTag, func(t *types.Named) bool { return embedsMessageBase(t) })
+		for v, ts := range tab {
+			for _, t := range ts {
+				caseTypes[v] = append(caseTypes[v], types.NewPointer(t))
+			}
+			casePos[v] = fd
+		}
+		found = len(tab) > 0
+	}
+	if !found {
 		c.Undecided("%s.NewMsgFromCbor: no switch on the message type", rel)
 	}
 	// set equality with constants
